@@ -386,12 +386,12 @@ CHECK = {
             "same special points and random in (-2pi,2pi), pitch random / at +-(pi/2-1e-3) / near it; random proper rotations with "
             "|R20| <= 1-1e-6 (30% within 1e-1..1.6e-3 rad of gimbal lock); quaternions of norm 1e-3..1e3 (15% with a zero component); "
             "points of norm 1e-6..1e6 incl. on the axes; float and double. Non-trivial = distinct case with a finite result.",
-    "trusted": ["hand-written model coq/AnglesModel.v tied by differential execution (this run)",
+    "trusted": ["translator translate/srcfuns.py (clang AST of between0And2Pi, betweenMinusPiAndPi, rotation2DToEulerAngle, rotation3DToEulerAngles at double -> Gallina)", "hand-written model coq/AnglesModel.v tied by differential execution (this run)",
                 "extraction (ExtrOcamlBasic), ocaml/numf.ml (f32 = binary64 libm result rounded to binary32), ocaml/drv_C10.ml",
                 "harness/C10.cpp, python/mpmath oracle in checks/C10.py",
                 "Eigen: AngleAxis->Quaternion, quaternion product, normalized(), toRotationMatrix(), 3x3 products (transcribed, compared numerically)"],
     "manifest": {
-        "text": "Coq theorems over the reals about the transcribed formulas: Rz*Ry*Rx is a proper rotation; the quaternion builder, the matrix "
+        "text": "SYNTACTIC TIE: the angle normalisers and the rotation -> angle extractors are re-translated from the clang AST of the current source (instantiation at double, if/else chains included) on every run (translate/srcfuns.py -> coq/gen/SrcFuns.v) and proved equal to the model functions. Coq theorems over the reals about the transcribed formulas: Rz*Ry*Rx is a proper rotation; the quaternion builder, the matrix "
                 "builder and SmartRotation3D::R are the same matrix; angles->rotation->angles returns the angles modulo 2*pi in [0,2*pi); "
                 "rotation->angles->rotation is the identity for |R20|<1; the normalisers are congruent modulo 2*pi and inside their interval "
                 "for |x|<4*pi; the planar pair and the polar/spherical maps are mutual inverses for r>0. The model is executed (binary64 and "
